@@ -76,23 +76,25 @@ impl AddressRange {
 //@|    requires self.wf(),
 //@|    ensures r.current == self.start, r.remain == self.count, r.wf(),
 
-//@fn rodbus/src/types.rs | AddressRange::of_read_bits | tags=C01,C03
+// [C03] empty or address-overflowing ranges are rejected here too: the fields of AddressRange are public, so a value that did not come
+// from try_from may reach the request API
+//@fn rodbus/src/types.rs | AddressRange::of_read_bits | tags=C01,C03 | r10 r10id=0
 //@|    ensures
-//@|        r is Ok <==> self.count <= 2000,   // limit taken from the property text, not from constants.rs
+//@|        r is Ok <==> self.wf() && self.count <= 2000,   // limit taken from the property text, not from constants.rs
 //@|        r is Ok ==> r->Ok_0.inner == self,
-//@|        r is Err ==> r->Err_0 == InvalidRange::CountTooLargeForType(self.count, 2000),
+//@|        (self.wf() && r is Err) ==> r->Err_0 == InvalidRange::CountTooLargeForType(self.count, 2000),
 
-//@fn rodbus/src/types.rs | AddressRange::of_read_registers | tags=C01,C03
+//@fn rodbus/src/types.rs | AddressRange::of_read_registers | tags=C01,C03 | r10 r10id=0
 //@|    ensures
-//@|        r is Ok <==> self.count <= 125,
+//@|        r is Ok <==> self.wf() && self.count <= 125,
 //@|        r is Ok ==> r->Ok_0.inner == self,
-//@|        r is Err ==> r->Err_0 == InvalidRange::CountTooLargeForType(self.count, 125),
+//@|        (self.wf() && r is Err) ==> r->Err_0 == InvalidRange::CountTooLargeForType(self.count, 125),
 
-//@fn rodbus/src/types.rs | AddressRange::limited_count | tags=C01,C03
+//@fn rodbus/src/types.rs | AddressRange::limited_count | tags=C01,C03 | r10 r10id=0
 //@|    ensures
-//@|        r is Ok <==> self.count <= limit,
+//@|        r is Ok <==> self.wf() && self.count <= limit,
 //@|        r is Ok ==> r->Ok_0 == self,
-//@|        r is Err ==> r->Err_0 == InvalidRange::CountTooLargeForType(self.count, limit),
+//@|        (self.wf() && r is Err) ==> r->Err_0 == InvalidRange::CountTooLargeForType(self.count, limit),
 }
 
 impl AddressIterator {
